@@ -82,7 +82,7 @@ def stepH (s : S) (ws : List String) (h : Hist Float) : S × String :=
     | (none, _) => (s, "fault")
   | "hscore" :: _ =>
     match argF ws "x" with
-    | some x => let (st, b) := h.score2bin x; (s, s!"{st.name} b={b}")
+    | some x => let (st, b) := h.score2bin x; (s, s!"{st.name} b={b} lb={fb (h.lbound b)}")
     | none => (s, "bad-op")
   | "hdump" :: _ => (s, dump h)
   | "hrank" :: _ =>
